@@ -72,11 +72,30 @@ func main() {
 				case "flag-text":
 					results[i] = seccomp.FilterFlag(uint32(i % 8)).String()
 				case "unpack":
+					// every goroutine parses the same names; "ok" or what went wrong (values are the kernel's constants)
+					bad := ""
+					for name, want := range map[string]uint32{"allow": 0x7fff0000, "ERRNO": 0x00050000, "Kill_Process": 0x80000000, "kill_thread": 0, "Trap": 0x00030000, "trace": 0x7ff00000, "LOG": 0x7ffc0000} {
+						a := seccomp.Action(0xdeadbeef)
+						if err := a.Unpack(name); err != nil || uint32(a) != want {
+							bad += fmt.Sprintf("Action.Unpack(%q) = %#x, %v; ", name, uint32(a), err)
+						}
+					}
 					var a seccomp.Action
-					err := a.Unpack([]string{"allow", "ERRNO", "Kill_Process", "nope"}[(i+k)%4])
-					var o seccomp.Operation
-					err2 := o.Unpack([]string{"Equal", "bitsset", "nope"}[(i+k)%3])
-					results[i] = fmt.Sprint(a, err, o, err2)
+					if err := a.Unpack("nope"); err == nil {
+						bad += "Action.Unpack(\"nope\") accepted; "
+					}
+					for name, want := range map[string]seccomp.Operation{"Equal": seccomp.Equal, "bitsset": seccomp.BitsSet, "NOTEQUAL": seccomp.NotEqual} {
+						var o seccomp.Operation
+						if err := o.Unpack(name); err != nil || o != want {
+							bad += fmt.Sprintf("Operation.Unpack(%q) = %q, %v; ", name, o, err)
+						}
+					}
+					if bad == "" {
+						bad = "ok"
+					}
+					if results[i] == "" || results[i] == "ok" {
+						results[i] = bad
+					}
 				}
 			}
 		}(i, op)
